@@ -214,6 +214,7 @@ func LoadRuleOfResource(res string, rule *Rule) (bool, error) {
 		delete(breakerRules, res)
 		delete(outlierRules, res)
 		updateMux.Unlock()
+		voidRecycleSchedule(res)
 		logging.Info("[Outlier] clear resource level rule", "resource", res)
 		return true, nil
 	}
@@ -259,6 +260,7 @@ func onResourceRuleUpdate(res string, rule *Rule) (err error) {
 		delete(breakerRules, res)
 		delete(outlierRules, res)
 		updateMux.Unlock()
+		voidRecycleSchedule(res)
 		currentRules[res] = rule
 		return
 	}
@@ -275,10 +277,14 @@ func onResourceRuleUpdate(res string, rule *Rule) (err error) {
 	}
 
 	updateMux.Lock()
+	oldRule := outlierRules[res]
 	outlierRules[res] = rule
 	breakerRules[res] = circuitRule
 	nodeBreakers[res] = newBreakers
 	updateMux.Unlock()
+	if !sameRecycling(oldRule, rule) {
+		voidRecycleSchedule(res)
+	}
 	currentRules[res] = rule
 
 	logging.Debug("[Outlier onResourceRuleUpdate] Time statistics(ns) for updating outlier ejection rule", "timeCost", util.CurrentTimeNano()-start)
@@ -326,10 +332,17 @@ func onRuleUpdate(rulesMap map[string]*Rule) (err error) {
 	// rule, but breakers, and the nil rule was dereferenced.
 	updateMux.Lock()
 	newBreakers := rebuildNodeBreakers(validCircuitRulesMap, nodeBreakers)
+	oldRules := outlierRules
 	breakerRules = validCircuitRulesMap
 	outlierRules = validRulesMap
 	nodeBreakers = newBreakers
 	updateMux.Unlock()
+	// (a rule that this load leaves as it was keeps its schedule: every load hands in new rule objects)
+	for resource, oldRule := range oldRules {
+		if !sameRecycling(oldRule, validRulesMap[resource]) {
+			voidRecycleSchedule(resource)
+		}
+	}
 	logging.Debug("[Outlier onRuleUpdate] Time statistics(ns) for updating all circuit breakers", "timeCost", util.CurrentTimeNano()-start)
 
 	LogRuleUpdate(validRulesMap)
